@@ -1,8 +1,231 @@
-//! Implementation runner for the `man` area: add the modes of this area to `dispatch`.
+//! Implementation runner for the `man` area (C19): build a `clap::Command` from the man spec of the
+//! case, render it with the real `clap_mangen::Man`, print the page as hex.
+//!
+//! Case: `(man <spec> [<twin-spec>])`; a spec is `(cmd item ...)`, see `build_cmd` for the items.
+//! Result: `(page x<hex>) (det true|false) [(twin x<hex>)]`; a panic anywhere is printed by main.rs as
+//! `PANIC <msg>`, a panic while rendering only the twin as `(twin PANIC)`.
+use crate::hex;
 use crate::sexp::Sx;
+use clap::builder::{PossibleValue, PossibleValuesParser};
+use clap::{Arg, ArgAction, Command};
+use std::panic::{catch_unwind, AssertUnwindSafe};
+
+fn s(x: &Sx) -> String {
+    String::from_utf8(x.bytes()).expect("spec strings are UTF-8")
+}
+fn ch(x: &Sx) -> char {
+    let t = s(x);
+    let mut it = t.chars();
+    let c = it.next().expect("short: one char");
+    assert!(it.next().is_none(), "short: one char");
+    c
+}
+
+fn build_pv(items: &[Sx]) -> PossibleValue {
+    let mut name = String::new();
+    let mut help = None;
+    let mut hide = false;
+    for it in items {
+        let l = it.args();
+        match it.head() {
+            "name" => name = s(&l[0]),
+            "help" => help = Some(s(&l[0])),
+            "hide" => hide = true,
+            h => panic!("harness: unknown pv item {h}"),
+        }
+    }
+    let mut pv = PossibleValue::new(name).hide(hide);
+    if let Some(h) = help {
+        pv = pv.help(h);
+    }
+    pv
+}
+
+fn build_arg(items: &[Sx]) -> Arg {
+    let mut id = String::new();
+    for it in items {
+        if it.head() == "id" {
+            id = s(&it.args()[0]);
+        }
+    }
+    let mut a = Arg::new(id);
+    let mut pvs: Vec<PossibleValue> = vec![];
+    for it in items {
+        let l = it.args();
+        a = match it.head() {
+            "id" => a,
+            "short" => a.short(ch(&l[0])),
+            "long" => a.long(s(&l[0])),
+            "action" => a.action(match l[0].sym() {
+                "set" => ArgAction::Set,
+                "append" => ArgAction::Append,
+                "settrue" => ArgAction::SetTrue,
+                "setfalse" => ArgAction::SetFalse,
+                "count" => ArgAction::Count,
+                k => panic!("harness: unknown action {k}"),
+            }),
+            "num-args" => {
+                let lo = l[0].num() as usize;
+                if l[1].sym() == "max" {
+                    a.num_args(lo..)
+                } else {
+                    a.num_args(lo..=(l[1].num() as usize))
+                }
+            }
+            "value-names" => a.value_names(l.iter().map(s).collect::<Vec<_>>()),
+            "help" => a.help(s(&l[0])),
+            "long-help" => a.long_help(s(&l[0])),
+            "hide" => a.hide(true),
+            "hide-short-help" => a.hide_short_help(true),
+            "hide-long-help" => a.hide_long_help(true),
+            "hide-env" => a.hide_env(true),
+            "hide-default" => a.hide_default_value(true),
+            "hide-pvs" => a.hide_possible_values(true),
+            "required" => a.required(true),
+            "defaults" => a.default_values(l.iter().map(s).collect::<Vec<_>>()),
+            "env" => a.env(s(&l[0])),
+            "pv" => {
+                pvs.push(build_pv(l));
+                a
+            }
+            "heading" => a.help_heading(s(&l[0])),
+            h => panic!("harness: unknown arg item {h}"),
+        };
+    }
+    if !pvs.is_empty() {
+        a = a.value_parser(PossibleValuesParser::new(pvs));
+    }
+    a
+}
+
+fn build_sub(items: &[Sx]) -> Command {
+    let mut name = String::new();
+    for it in items {
+        if it.head() == "name" {
+            name = s(&it.args()[0]);
+        }
+    }
+    let mut c = Command::new(name);
+    for it in items {
+        let l = it.args();
+        c = match it.head() {
+            "name" => c,
+            "about" => c.about(s(&l[0])),
+            "long-about" => c.long_about(s(&l[0])),
+            "hide" => c.hide(true),
+            h => panic!("harness: unknown sub item {h}"),
+        };
+    }
+    c
+}
+
+#[derive(Default)]
+struct ManOpts {
+    title: Option<String>,
+    section: Option<String>,
+    date: Option<String>,
+    source: Option<String>,
+    manual: Option<String>,
+}
+
+fn build_cmd(items: &[Sx]) -> (Command, ManOpts) {
+    let mut name = String::new();
+    for it in items {
+        if it.head() == "name" {
+            name = s(&it.args()[0]);
+        }
+    }
+    let mut c = Command::new(name);
+    let mut m = ManOpts::default();
+    for it in items {
+        let l = it.args();
+        c = match it.head() {
+            "name" => c,
+            "display-name" => c.display_name(s(&l[0])),
+            "bin-name" => c.bin_name(s(&l[0])),
+            "version" => c.version(s(&l[0])),
+            "long-version" => c.long_version(s(&l[0])),
+            "author" => c.author(s(&l[0])),
+            "about" => c.about(s(&l[0])),
+            "long-about" => c.long_about(s(&l[0])),
+            "after-help" => c.after_help(s(&l[0])),
+            "after-long-help" => c.after_long_help(s(&l[0])),
+            "before-long-help" => c.before_long_help(s(&l[0])),
+            "sub-heading" => c.subcommand_help_heading(s(&l[0])),
+            "sub-value-name" => c.subcommand_value_name(s(&l[0])),
+            "sub-required" => c.subcommand_required(true),
+            "no-help-flag" => c.disable_help_flag(true),
+            "no-version-flag" => c.disable_version_flag(true),
+            "no-help-sub" => c.disable_help_subcommand(true),
+            "arg" => c.arg(build_arg(l)),
+            "sub" => c.subcommand(build_sub(l)),
+            "m-title" => {
+                m.title = Some(s(&l[0]));
+                c
+            }
+            "m-section" => {
+                m.section = Some(s(&l[0]));
+                c
+            }
+            "m-date" => {
+                m.date = Some(s(&l[0]));
+                c
+            }
+            "m-source" => {
+                m.source = Some(s(&l[0]));
+                c
+            }
+            "m-manual" => {
+                m.manual = Some(s(&l[0]));
+                c
+            }
+            h => panic!("harness: unknown cmd item {h}"),
+        };
+    }
+    (c, m)
+}
+
+fn render(spec: &Sx) -> Vec<u8> {
+    let (cmd, m) = build_cmd(spec.args());
+    let mut man = clap_mangen::Man::new(cmd);
+    if let Some(t) = m.title {
+        man = man.title(t);
+    }
+    if let Some(t) = m.section {
+        man = man.section(t);
+    }
+    if let Some(t) = m.date {
+        man = man.date(t);
+    }
+    if let Some(t) = m.source {
+        man = man.source(t);
+    }
+    if let Some(t) = m.manual {
+        man = man.manual(t);
+    }
+    let mut buf: Vec<u8> = vec![];
+    man.render(&mut buf).expect("writing to a Vec");
+    buf
+}
+
+fn man(args: &[Sx]) -> String {
+    let page = render(&args[0]);
+    // determinism: a second, independent build + render of the same spec
+    let again = render(&args[0]);
+    let mut out = format!("(page {}) (det {})", hex(&page), page == again);
+    if args.len() > 1 {
+        match catch_unwind(AssertUnwindSafe(|| render(&args[1]))) {
+            Ok(t) => out.push_str(&format!(" (twin {})", hex(&t))),
+            Err(_) => out.push_str(" (twin PANIC)"),
+        }
+    }
+    out
+}
 
 /// Returns `Some(result)` when `head` is a mode of this area.
 pub fn dispatch(head: &str, args: &[Sx]) -> Option<String> {
-    let _ = (head, args);
-    None
+    match head {
+        "man" => Some(man(args)),
+        _ => None,
+    }
 }
